@@ -247,7 +247,8 @@ class LowerOf:
 
 def derived(fn, x):
     t = as_tmpl(x)
-    s = Sym("%s(%s)" % (fn, t.text()), prov=("derived", fn, t), wild=any(isinstance(p, Sym) and p.wild for p in t.parts))
+    inner = "".join(p if isinstance(p, str) else getattr(p, "tag", "?") for p in t.parts)
+    s = Sym("%s(%s)" % (fn, inner), prov=("derived", fn, t), wild=any(isinstance(p, Sym) and p.wild for p in t.parts))
     s.derived_from = t
     if not s.wild:
         for k in ("isdigit", "isint", "== 'true'", "== 'false'", "== 'None'"):
@@ -483,7 +484,12 @@ def b_int(it):
                 raise PyRaise(ExcObj(it.builtins["ValueError"], ["invalid literal for int(): %r" % v]))
         if isinstance(v, Sym):
             if v.pred("isint"):
-                return SymInt("int(%s)" % v.tag, v)
+                lo = hi = None
+                if v.preds.get("isdigit") is True:
+                    lo = 1 if v.preds.get("positive") else 0
+                if v.preds.get("negative"):
+                    hi = -1
+                return SymInt("int(%s)" % v.tag, v, lo=lo, hi=hi)
             raise PyRaise(ExcObj(it.builtins["ValueError"], ["invalid literal for int()"]))
         if v is None:
             raise PyRaise(ExcObj(it.builtins["TypeError"], ["int() argument must be a string or a number, not NoneType"]))
@@ -562,7 +568,15 @@ def make_builtins(it):
     nat("str", lambda v="": to_str(it, v))
     nat("repr", lambda v: to_repr(it, v))
     nat("bool", lambda v=False: it.truth(v))
-    nat("abs", lambda v: abs(v) if isinstance(v, int) else SymInt("abs(%s)" % v.expr))
+    def b_abs(v):
+        if isinstance(v, int):
+            return abs(v)
+        if v.lo is not None and v.lo >= 0:
+            return SymInt("abs(%s)" % v.expr, lo=v.lo, hi=v.hi)
+        if v.hi is not None and v.hi <= 0:
+            return SymInt("abs(%s)" % v.expr, lo=-v.hi, hi=(-v.lo if v.lo is not None else None))
+        return SymInt("abs(%s)" % v.expr, lo=0)
+    nat("abs", b_abs)
     nat("pow", lambda a, b: pow(a, b))
     nat("min", lambda *a, **k: min(*a, **k))
     nat("max", lambda *a, **k: max(*a, **k))
